@@ -14,8 +14,14 @@
     live <addr…>                  -> ok <len>:<cap>:<tag|-> (memory of a live allocation; err if not live)
     ptr <c>                       -> the pointer structure of class c read through pointers only (State.heap):
                                      ok L=<slot|0> F=<pg|0> Z=<pg|0> g=<slot:prev:next,…|-> pl=<pg:prev:next:fl;slot:pip:nip,…|…|->
+    n new                         -> ok   (node-level wiring model, Model/AllocNode.lean, fresh process)
+    n init <0|1> | n reset <0|1> | n other <0|1> | n m | n f <rec> | n d
+                                  -> ok rep=<id|-> allocs=<n|-> live=<n> m=<h|id> f=<h|id> next=<n>
+                                     (0|1 = CFG.Memory.UseGoHeap at that moment; rep = which allocator common.Memory is,
+                                      in creation order; m / f = what Memory_Malloc / Memory_Free are bound to)
 -/
 import GocoinV.Model.Alloc
+import GocoinV.Model.AllocNode
 import GocoinV.Base.Proto
 open GocoinV GocoinV.Alloc
 
@@ -139,4 +145,38 @@ def step (s : St) (toks : List String) : St × String :=
         ",".intercalate (slotSizes.map toString))
   | _ => bad
 
-def main : IO Unit := Proto.serve (Alloc.init : St) step
+def tgtStr : AllocNode.Target → String
+  | .goHeap => "h"
+  | .arena id => toString id
+
+def nodeStr (n : AllocNode.Node) : String :=
+  let rep := match n.reporting with | some id => toString id | none => "-"
+  let al := match AllocNode.reportedAllocs n with | some a => toString a | none => "-"
+  s!"ok rep={rep} allocs={al} live={n.live.length} m={tgtStr n.mallocTo} f={tgtStr n.freeTo} next={n.nextRec}"
+
+def flag? : String → Option Bool
+  | "0" => some false
+  | "1" => some true
+  | _ => none
+
+def nodeStep (n : AllocNode.Node) (toks : List String) : AllocNode.Node × String :=
+  let f := AllocNode.srcFacts
+  let go (op : AllocNode.Op) := let n' := AllocNode.step f n op; (n', nodeStr n')
+  match toks with
+  | ["new"] => (AllocNode.Node.empty, "ok")
+  | ["init", g] => match flag? g with | some g => go (.initConfig g) | none => (n, "bad-op")
+  | ["reset", g] => match flag? g with | some g => go (.reset g) | none => (n, "bad-op")
+  | ["other", g] => match flag? g with | some g => go (.other g) | none => (n, "bad-op")
+  | ["m"] => go .malloc
+  | ["f", r] => match r.toNat? with
+    | some r => if n.live.any (·.1 == r) then go (.free r) else (n, "err notLive")
+    | none => (n, "bad-op")
+  | ["d"] => go .defrag
+  | _ => (n, "bad-op")
+
+def step2 (s : St × AllocNode.Node) (toks : List String) : (St × AllocNode.Node) × String :=
+  match toks with
+  | "n" :: rest => let (n', r) := nodeStep s.2 rest; ((s.1, n'), r)
+  | _ => let (a', r) := step s.1 toks; ((a', s.2), r)
+
+def main : IO Unit := Proto.serve ((Alloc.init : St), AllocNode.Node.empty) step2
